@@ -1,6 +1,7 @@
 package b2fx
 
 import (
+	"bytes"
 	"fmt"
 	"regexp"
 	"sort"
@@ -9,6 +10,7 @@ import (
 	"github.com/la5nta/wl2k-go/fbb"
 
 	"verif/internal/mem"
+	"verif/internal/ref/msgref"
 	"verif/internal/vrt"
 )
 
@@ -279,5 +281,39 @@ func CheckReturned(o *vrt.Obs, res Result, what string) {
 	}
 	if !res.Link.Closed[0] || !res.Link.Closed[1] {
 		o.Violate("conn-not-closed", "%s: connection closed flags after Exchange: A=%v B=%v", what, res.Link.Closed[0], res.Link.Closed[1])
+	}
+}
+
+// CheckContent compares what a station's handler was handed with what was queued at the other
+// station WITHOUT going through the library's message parser: the delivered bytes are split into
+// sections by the independent reader msgref and body, attachment data and raw attachment names are
+// compared with the generator's specification. (The hash comparison of CheckCompleted uses ground
+// truth that was canonicalised by the library's own parse + serialise; a parser that damages a
+// message the same way every time is invisible there.)
+func CheckContent(o *vrt.Obs, specs []MsgSpec, inbox map[string][]byte, receiver string) {
+	for _, m := range specs {
+		got, ok := inbox[m.MID]
+		if !ok {
+			continue
+		}
+		o.Count("delivered_messages_compared_section_by_section", 1)
+		ref, err := msgref.Parse(got)
+		if err != nil {
+			o.Violate("content-independent:unparseable", "station %s: the delivered message %s is not well-formed for the independent reader: %v", receiver, m.MID, err)
+			continue
+		}
+		switch {
+		case !bytes.Equal(ref.Body, m.Body):
+			o.Violate("content-independent:body", "station %s: body of the delivered message %s (%d bytes) differs from the queued body (%d bytes, %s)", receiver, m.MID, len(ref.Body), len(m.Body), m.Shape)
+		case len(ref.Files) != len(m.Files):
+			o.Violate("content-independent:attachments", "station %s: delivered message %s has %d attachments, queued %d (%s)", receiver, m.MID, len(ref.Files), len(m.Files), m.Shape)
+		default:
+			for i, f := range m.Files {
+				if !bytes.Equal(ref.Files[i].Data, f.Data) || ref.Files[i].RawName != f.Name {
+					o.Violate("content-independent:attachment", "station %s: attachment %d of the delivered message %s (%q, %d bytes) differs from the queued one (%q, %d bytes; %s)", receiver, i, m.MID, ref.Files[i].RawName, len(ref.Files[i].Data), f.Name, len(f.Data), m.Shape)
+					break
+				}
+			}
+		}
 	}
 }
